@@ -201,6 +201,24 @@ class Pool:
                 return i
         return None
 
+    def closure(self, idxs):
+        """Pool entries that legitimately change together with the given ones: linked by the caller's own
+        construction / a documented pass-through (transitively), or the very same object registered twice."""
+        out = set(idxs)
+        grew = True
+        while grew:
+            grew = False
+            for j in list(out):
+                for l in self.objs[j]['links']:
+                    if l not in out:
+                        out.add(l)
+                        grew = True
+                for i, p in enumerate(self.objs):
+                    if i not in out and p['obj'] is self.objs[j]['obj']:
+                        out.add(i)
+                        grew = True
+        return out
+
     def tts(self, n):
         out = []
         for i, p in enumerate(self.objs):
@@ -362,7 +380,7 @@ def execute(sc):
                 j = pool.find(obj)
                 if j is not None:
                     exempt.add(j)
-                    exempt |= pool.objs[j]['links']
+            exempt = pool.closure(exempt)
             if call.mutable and any(isinstance(m, int) for m in call.mutable):
                 P('inplace_calls')
             mon = {'n': 0, 'bad': None}
@@ -475,16 +493,7 @@ def execute(sc):
             P('scribble_ops')
             if produced:
                 later_use = True
-            exempt = {i} | p['links']
-            # transitive links (a list of tensors that contains a tensor that was passed through ...)
-            grew = True
-            while grew:
-                grew = False
-                for j in list(exempt):
-                    for l in pool.objs[j]['links']:
-                        if l not in exempt:
-                            exempt.add(l)
-                            grew = True
+            exempt = pool.closure({i})
             r = check_pool(exempt, 'after the caller wrote into its own object #%d (%s)' % (i, p['tag']))
             if r:
                 q = pool.objs[r[0]]
